@@ -114,6 +114,48 @@ CHECKS["C07"] = dict(_db("c07", 64, 3200, "a query with ASOF/UNTIL returns a per
 CHECKS["C08"] = dict(_db("c08", 64, 3200, "a query with WHERE over stored dims does not equal the same query over only the matching points"),
     rule=("as C06 with a WHERE predicate over the dims of the stored key (=, <>, <, >, <=, >=, IN, IS NULL, AND/OR/NOT), evaluated by "
           "the real goexpr on each point's stored key as an oracle column; 4 queries per history. non-trivial: >= 3 points"))
+def c02_finding_key(case):
+    """array-values-inserted-twice: the ONLY deviation of the case is that acknowledged points with an array of n >= 2
+    values are reflected 2n-1 times (every other entry exactly as the model says, no hung child)."""
+    if case.get("hung") or "counts" not in case or "rounds" not in case:
+        return None
+    arr = {int(k): v for k, v in (case.get("arr") or {}).items()}
+    doubled = False
+    acked = case.get("acked") or []
+    passes = case.get("pass") or []
+    if len(passes) != len(acked):
+        return None
+    for a, ok in zip(acked, passes):
+        n = arr.get(a, 1)
+        want = n if ok else 0
+        obs = case["counts"].get(str(a + 1), 0)
+        if obs == want:
+            continue
+        if ok and n >= 2 and obs == 2 * n - 1:
+            doubled = True
+            continue
+        return None
+    for pid, cnt in case["counts"].items():
+        if cnt and int(pid) - 1 not in acked:
+            return None
+    return "array-values-inserted-twice" if doubled else None
+
+CHECKS["C02"] = dict(
+    stages=[dict(sub="c02", quick=96, thorough=3000, shrink=["rounds"], parallel=16, shards=16),
+            dict(sub="c02", mode="db", quick=48, thorough=1000, shrink=["rounds"], parallel=16, shards=16, seed_salt=55)],
+    finding_key=c02_finding_key,
+    assumptions=["a kill preserves the file system (process kill, not power loss): every rename/remove is atomic and durable once it returned; temp files live outside the table directory",
+                 "the WAL (getlantern/wal) is external: opened with sync on every write; assumed to return acknowledged entries in order with stable offsets and to drop a torn tail",
+                 "kills: os.Exit at the n-th hit of an instrumented step of the flush/offset/insert path (verif hook), SIGKILL after a random delay, exit without Close, clean Close; up to 3 rounds on one directory",
+                 "an insert in flight at the kill counts as acknowledged iff the final observation shows it (either is allowed by the property)",
+                 "observation only after restart and exact quiescence (VerifQuiescent: WAL end over all segments reached, all reads processed, all inserts applied)"],
+    trusted=_DB_TRUSTED + ["verifPoint crash points (verif hook) are placed between the steps of doProcessFlush / writeOffsets / the row-store loop; their placement is read, not proved"],
+    what_fails="after kills and restarts on one directory a table reflects an acknowledged insert not exactly once (lost or double counted), reflects an unacknowledged one more than once, or a child never finishes (Close or reopening hangs)",
+    rule=("generated table 't' + table 'tid' = SUM(one) WHERE d2 <> 1 GROUP BY pid (pid unique per point; 20% of the points carry an array of 2..450 values = several row-store inserts with one offset); 1-3 rounds of 2-9 operations from "
+          "{insert batch, insert with a flush landing while its values are applied, FlushAll, wait for quiescence, sleep}, each round ended by an armed crash point (15 points x n-th hit), SIGKILL after 0-6 ms, exit without Close, or Close; "
+          "then restart, catch up, observe. stage c02: per-entry multiplicities in tid vs Model/Crash.v run on the same history; stage c02/db: rows of 't' vs the specification model over the acknowledged points (scalar values only). "
+          "non-trivial: every case ends at least one round by a kill or close and reopens"))
+
 CHECKS["C03"] = dict(_db("c03", 64, 3200, "a memstore-inclusive query depends on the flush/restart schedule, or a disk-only query after a flush differs from the memstore-inclusive one"),
     rule=("as C01 with schedules none / every k-th insert / random / dense (>10 flushes, so the every-10th re-encoding flush runs) / "
           "flushes with clean close+reopen / restart-heavy schedules on tables with a WHERE (offset-file path); a third of the cases with a memory cap configured so that forced flushes are sorted (emsort); queries: SELECT * and a named field subset with the memstore, and after a final flush the same two "
